@@ -169,6 +169,7 @@ func ruleAuthZen(e *Engine, r *Reporter) {
 	}
 
 	ruleAuthzenModelAndRoles(e, r, fns)
+	ruleEvalDefaultsAreRequestLevel(e, r, fns)
 
 	r.Rule("authzen-search-projection", "SubjectSearch and ResourceSearch return a projection of every element of the native ListUsers / StreamedListObjects result (no element dropped except by type/format parsing), and ActionSearch returns exactly the relations whose BatchCheck result is allowed", 3)
 	ss := e.Func("pkg/server", "Server.SubjectSearch")
@@ -404,4 +405,38 @@ func (e *Engine) roleSource(v ssa.Value, role string, depth int) bool {
 		}
 		return false
 	})
+}
+
+// ruleEvalDefaultsAreRequestLevel: every item of a batched AuthZEN evaluation falls back to the *request-level*
+// subject/resource/action/context.  The defaults handed to resolveEvalFields are the request's own getters, not a
+// value carried over from the previous item.
+func ruleEvalDefaultsAreRequestLevel(e *Engine, r *Reporter, fns []*ssa.Function) {
+	r.Rule("authzen-item-defaults-request-level", "the default subject, resource, action and context passed to resolveEvalFields for each evaluation item are the request's own GetSubject/GetResource/GetAction/GetContext values (loop-invariant), never the previous item's resolved values", 4)
+	want := []string{"", "GetSubject", "GetResource", "GetAction", "GetContext"}
+	n := 0
+	for _, f := range fns {
+		eachInstr(f, true, func(in ssa.Instruction) {
+			c, ok := in.(ssa.CallInstruction)
+			if !ok || !isCallNamed(in, "resolveEvalFields") {
+				return
+			}
+			args := c.Common().Args
+			if len(args) != 5 {
+				return
+			}
+			for i := 1; i <= 4; i++ {
+				n++
+				okArg := false
+				if call, isCall := unwrap(args[i]).(*ssa.Call); isCall {
+					if o := calleeObj(call); o != nil && o.Name() == want[i] {
+						okArg = true
+					}
+				}
+				r.Check(okArg, fmt.Sprintf("%s | resolveEvalFields default %s #%d", fname(topLevel(f)), strings.TrimPrefix(want[i], "Get"), n), e.instrPos(in), "request."+want[i]+"()", "the default passed for "+strings.TrimPrefix(want[i], "Get")+" is "+describe_(args[i])+", not the request-level value: an item that omits the field inherits the previous item's value instead of the request's")
+			}
+		})
+	}
+	if n == 0 {
+		blind("authzen-item-defaults-request-level: no resolveEvalFields call found")
+	}
 }
